@@ -295,6 +295,21 @@ var specs = map[string]Spec{
 		QuickFloors: map[string]int64{"scripts": 400, "healed_to_full_strength": 200, "cancel_points_hit": 100},
 		MaxSamples:  2,
 	},
+	"C09": {
+		Engine: "gossip", Run: "^TestConvergence$", Race: true,
+		RaceViolation: regexp.MustCompile(`shardManagerImpl\)|shardDelegate\)|shardEventDelegate\)`),
+		QuickShards: 16, ThoroughShards: 16, QuickWatchdog: 10 * time.Minute, ThoroughWatchdog: 60 * time.Minute,
+		Level:     "exploration",
+		LevelText: "Two to three real shard managers are started with their own (isolated) memberlist so that the real delegates and callbacks are installed; the harness is the gossip network: for every subset and time order of competing claims on 1-2 shards it delivers the ownership announcements (built as broadcastShardChange builds them) to every other instance in every permutation, with a duplicate, a full-state merge (LocalState -> MergeRemoteState) and a node-leave inserted, and finally with and without a closing push/pull round. Afterwards each shard must be owned by exactly the instance with the newest live claim, every instance's view of its peers must list the shard only under that owner (after the closing round), and an instance that left must own nothing in any peer's view. The routing clause is probed on the same instances: local stream => delivered locally exactly once; nobody => reported undelivered; local stream closing => reported undelivered; known but unreachable remote owner => reported undelivered and nothing arrives.",
+		LevelNote: "Permutations of deliveries are exhaustive for the listed families (2 instances/1 shard, 3 instances/1 shard, 2 instances/2 shards, up to 7 deliveries); timing between real goroutines is not involved (the delegates are called synchronously by the harness). Forwarding to a reachable remote owner over the intra-proxy stream needs assembled proxies and is covered by the cluster part of the wire engine.",
+		Technique: "runtime monitor: harness-as-network permutation of real delegate callbacks on real shard managers; convergence and view oracles; routing-result probes",
+		DesignRef: "DESIGN.md §4 C09",
+		Rule:      "cases = blocks of 200 scenarios (claim order x delivery permutation x {plain, duplicate, merge, leave position}) each run with and without a final sync; distinct = (family, shape, length) classes",
+		Exhaustive: "all delivery permutations of the listed claim families",
+		Assumptions: []string{"announcements are delivered at least once to every other live instance (memberlist reliable send)", "registration times are distinct (2 µs apart)"},
+		QuickFloors: map[string]int64{"scenarios": 2000, "routing_probes": 30},
+		MaxSamples:  2,
+	},
 	"C05": {
 		Engine: "ringmodel", Run: "^TestRing$", Race: false,
 		QuickShards: 16, ThoroughShards: 16, QuickWatchdog: 5 * time.Minute, ThoroughWatchdog: 40 * time.Minute,
